@@ -100,16 +100,30 @@ Proof.
   rewrite map_app. reflexivity.
 Qed.
 
+Lemma block_has_operand_strip ns : forall fuel n count,
+  block_has_operand fuel (map strip_tok ns) (strip_tok n) count = block_has_operand fuel ns n count.
+Proof.
+  induction fuel as [|f IH]; intros n count; [reflexivity|].
+  cbn [block_has_operand strip_tok n_left]. destruct (n_left n) as [l|]; [|reflexivity].
+  rewrite nth_error_map. destruct (nth_error ns l) as [ln|]; cbn [option_map]; [|reflexivity].
+  cbn [strip_tok n_def]. rewrite map_length.
+  destruct (negb _); [reflexivity|]. destruct (Nat.ltb _ _); [reflexivity|]. apply IH.
+Qed.
+
 Lemma space_list_check_strip st ug : space_list_check (erase_tok st) ug = space_list_check st ug.
 Proof.
   unfold space_list_check, erase_tok. cbn [nodes last_left check_for_list].
-  destruct (last_left st) as [l|]; [|reflexivity]. crunch.
+  destruct (last_left st) as [l|]; [|reflexivity].
+  rewrite nth_error_map. destruct (nth_error (nodes st) l) as [ln|]; cbn [option_map]; [|reflexivity].
+  rewrite map_length, block_has_operand_strip. reflexivity.
 Qed.
 
 Lemma space_list_check_erase st ug : space_list_check (erase st) ug = space_list_check st ug.
 Proof.
   unfold space_list_check, erase. cbn [nodes last_left check_for_list].
-  destruct (last_left st) as [l|]; [|reflexivity]. crunch.
+  destruct (last_left st) as [l|]; [|reflexivity].
+  rewrite nth_error_map. destruct (nth_error (nodes st) l) as [ln|]; cbn [option_map]; [|reflexivity].
+  rewrite map_length, block_has_operand_strip. reflexivity.
 Qed.
 
 (* ---- the arms ---- *)
